@@ -110,7 +110,8 @@ impl Database {
                                     match pendding_conflict.last() {
                                         Some(last_conflict) => (
                                             last_conflict.to_string(),
-                                            version + pendding_conflict.len() as i32,
+                                            // (the version comes from the client: i32::MAX must not overflow)
+                                            version.saturating_add(pendding_conflict.len() as i32),
                                         ),
                                         // Marked as conflicted without any conflict on record,
                                         // treat it as the first conflict of the key
